@@ -6,7 +6,7 @@ from fw import g_bools, g_list, g_str
 
 PID = 'C08'
 CHK = 'Chk_C08'
-RULE = ('pattern lists over an alphabet of literals/anchors/alternations/empty/"."/negated/"!" (length 0..5, '
+RULE = ('pattern lists over an alphabet of literals/anchors/alternations/empty/"."/negated/"!", groups with back-references, named groups and leading inline flags (length 0..5, '
         'exhaustive up to length 2 (quick) or 3 (thorough)), a shuffled copy with duplicates, one extra positive and '
         'one extra negated pattern, names incl. "" and "\\n"; non-trivial = at least two patterns or a negated one, '
         'and at least one name accepted and one rejected')
@@ -18,6 +18,9 @@ ASSUMPTIONS = ['patterns are valid regular expressions (an invalid one makes bui
 ALPHA = ['a', '^a', 'b$', 'a|b', '', '.', '!a', '!b$', '!', '!.']
 NAMES = ['', 'a', 'b', 'ab', 'ba', 'c', '\n', 'xay.b']
 EXTRA = ['c', 'x.y', '!c', '!^x', 'a.b', '[ab]c', '!(a|c)$', 'A', '!!', '!\\.', 'test_', '!test_x']
+# each pattern is a regular expression of its own: groups, back-references, named groups, a leading inline flag and an
+# unbalanced-looking alternation must mean in a list what they mean alone
+GROUPS = ['(a)\\1', '(a|b)\\1', '(?P<x>b)(?P=x)', '([ab])c\\1', '!(a)\\1', '!(x)y\\1', '(?i)A', '(?i)ab', '!(?i)B', 'a|', '|b', '(a)|(b)\\2']
 
 
 def generate(rng, tier, rep):
@@ -30,8 +33,8 @@ def generate(rng, tier, rep):
     nrand = {'quick': 400, 'thorough': 4000, 'search': 1500}[tier]
     for _ in range(nrand):
         n = rng.choice([0, 1, 2, 3, 4, 5])
-        ps = [rng.choice(ALPHA + EXTRA) for _ in range(n)]
-        names = rng.sample(NAMES, 4) + [''.join(rng.choice('abcxy._\n') for _ in range(rng.randint(0, 6))) for _ in range(4)]
+        ps = [rng.choice(ALPHA + EXTRA + (GROUPS if rng.random() < 0.35 else [])) for _ in range(n)]
+        names = rng.sample(NAMES, 4) + [''.join(rng.choice('abcxy._\n') for _ in range(rng.randint(0, 6))) for _ in range(4)] + rng.sample(['aa', 'bb', 'aca', 'bcb', 'xyx', 'AB', 'Bb'], 2)
         cases.append(mk(ps, rng, names))
     for c in cases:
         rep.count('len=%d' % len(c['pats']))
